@@ -218,7 +218,7 @@ class Compiler(abc.ABC):
 
             for n1, n2 in GM.mapping.items():
                 for x, y in zip(G1nodes[n1]["args"], G2nodes[n2]["args"]):
-                    if x != y and not (isinstance(x, sym.Symbol) or isinstance(y, sym.Expr)):
+                    if x != y and not isinstance(x, sym.Expr):
                         raise CircuitError(
                             "Program cannot be used with the compiler '{}' "
                             "due to incompatible parameter values.".format(self.short_name)
